@@ -275,6 +275,20 @@ MemIdxLddw(u) == { <<"lddw", Rd, ai, 0, 0, 0, 0>> : Rd \in 0..9, ai \in 1..NV }
 MemCaseLddw(t) == [BaseCase EXCEPT !.vm = "nodata", !.id = t, !.fam = "mem",
                      !.prog = Flat(LddwSlots(t[2], V64[t[3]]) \o (IF t[2] # 0 THEN << Mov64R(0, t[2]) >> ELSE <<>>) \o << ExitI >>)]
 
+\* atomic add: twice into the same packet word through rB at displacement off (any base / value
+\* register, every displacement class), read back; the packet bytes are compared too
+MemProgXadd(w, Rb, Rv, off, A) ==
+  Flat( LddwSlots(Rb, AddN(PktBase(PktLen), 8)) \o << Add64I(Rb, -off) >>
+        \o LddwSlots(Rv, A)
+        \o << XaddI(w, Rb, Rv, off), XaddI(w, Rb, Rv, off) >>
+        \o (IF Rb # 0 THEN << LdxI(8, 0, Rb, off) >> ELSE << LdxI(8, 0, 0, off) >>)
+        \o << ExitI >> )
+MemIdxXadd(u) == { <<"xadd", w, Rb, Rv, 0, OFFS[oi], ai>> :
+                     w \in {4, 8}, Rb \in {0, 1, 3, 6, 9}, Rv \in {0, 2, 7}, oi \in 1..Len(OFFS), ai \in {13, 16, 19} }
+MemCaseXadd(t) ==
+  [WithPkt([BaseCase EXCEPT !.vm = "raw"], PktLen) EXCEPT
+      !.id = t, !.fam = "mem", !.prog = MemProgXadd(t[2], t[3], t[4], t[6], V64[t[7]])]
+
 HashMem(t) == LET n(x) == (IF x < 0 THEN -(x+1) ELSE x) % 9973
               IN n(t[2]) + 3 * n(t[3]) + 5 * n(t[4]) + 7 * n(t[5]) + 11 * n(t[6]) + 13 * n(t[7])
 SampleM(Rs) == {t \in Rs : Keep(HashMem(t))}
@@ -285,7 +299,8 @@ MemCases(u) ==
   { MemCaseSti(t) : t \in SampleM(MemIdxSti(u)) } \cup
   { MemCaseAbs(t) : t \in MemIdxAbs(u) } \cup
   { MemCaseInd(t) : t \in SampleM(MemIdxInd(u)) } \cup
-  { MemCaseLddw(t) : t \in SampleM(MemIdxLddw(u)) }
+  { MemCaseLddw(t) : t \in SampleM(MemIdxLddw(u)) } \cup
+  { MemCaseXadd(t) : t \in SampleM({x \in MemIdxXadd(u) : x[3] # x[4]}) }
 
 (***************************************************************************)
 (* Family "bounds" (C02, C11): every access kind and width at every        *)
@@ -617,7 +632,8 @@ CfgCases(u) ==
 
 (***************************************************************************)
 (* Family "helpers" (C08): helper calls with boundary ids and arguments,   *)
-(* at call depth 0..3, one to three calls per program, with exact, larger  *)
+(* at call depth 0..3 and 7, 8 (the deepest allowed), one to three calls    *)
+(* per program, with exact, larger                                         *)
 (* and incomplete sets of registered helpers.                              *)
 (***************************************************************************)
 HelperIds == << 0, 1, 6, 2147483647, MinI32, -1 >>
@@ -648,7 +664,7 @@ HelperCase(d, idsel, ai, rs) ==
 IdSels == { <<HelperIds[k]>> : k \in 1..6 } \cup { <<1, 6>>, <<-1, 0, MinI32>>, <<2147483647, 1, 1>> }
 HelperCases(u) ==
   { HelperCase(t[1], t[2], t[3], t[4]) :
-      t \in { x \in (0..3) \X IdSels \X (1..Len(ArgSets)) \X (1..3) : Keep(x[1] + 3 * x[3] + 7 * x[4] + Len(x[2])) } }
+      t \in { x \in {0, 1, 2, 3, 7, 8} \X IdSels \X (1..Len(ArgSets)) \X (1..3) : Keep(x[1] + 3 * x[3] + 7 * x[4] + Len(x[2])) } }
 
 (***************************************************************************)
 (* Family "ctx" (C09): probe programs that read what each VM kind presents *)
